@@ -22,6 +22,7 @@ import (
 	"fmt"
 	"math/big"
 	"os"
+	"sort"
 	"testing"
 
 	"github.com/cloudflare/circl/internal/verifmc"
@@ -311,6 +312,9 @@ func TestVerifC05_verify448(t *testing.T) {
 	vs := []*eddsa.Variant{eddsa.Ed448, eddsa.Ed448ph}
 	// quick tier, configurations other than default: one base per variant, no bit flips (declared)
 	light := !r.Thorough() && r.Config() != "default"
+	// vacuity floors: summed over the Cases calls actually made (c05kit.Floors: derived from the
+	// alphabet and the reference's classification by construction, never from the library's answers)
+	want := map[string]int64{}
 	if light {
 		r.NotExhaustive("quick tier, non-default configuration: base b0 only, no single-bit flips")
 	}
@@ -331,6 +335,9 @@ func TestVerifC05_verify448(t *testing.T) {
 				r.NotExhaustive("quick tier: single-bit flips only on base b0 of plain Ed448")
 			}
 			cases := c05kit.Cases(v, b, c05kit.Options{Flips: flips})
+			for k, n := range c05kit.Floors(v, c05kit.Options{Flips: flips}) {
+				want[k] += n
+			}
 			if errs := c05kit.Judge(r, verifmc.ParallelFor, "verify448", v, c05Entries448(v), cases); len(errs) > 0 {
 				t.Fatalf("harness-internal: %v", errs)
 			}
@@ -348,25 +355,13 @@ func TestVerifC05_verify448(t *testing.T) {
 			}
 		}
 	}
-	fl := func(n int64) int64 {
-		if light {
-			return n / 4
-		}
-		return n
+	var names []string
+	for k := range want {
+		names = append(names, k)
 	}
-	r.RequireCounter("class:must-accept", fl(4))
-	r.RequireCounter("class:either", fl(20))
-	r.RequireCounter("reason:S>=L", fl(60))
-	r.RequireCounter("reason:A-not-canonical-point", fl(1000))
-	r.RequireCounter("reason:R-not-canonical-point", fl(1000))
-	r.RequireCounter("reason:cofactored-equation-fails", fl(300))
-	r.RequireCounter("reason:context-too-long", fl(8))
-	r.RequireCounter("lax:unused-bits", fl(4*254))
-	r.RequireCounter("lax:canonical-y", fl(8))
-	r.RequireCounter("lax:S-range", fl(20))
-	r.RequireCounter("lax:x0-sign", fl(8))
-	if !light {
-		r.RequireCounter("group:flip-A", 456)
-		r.RequireCounter("group:flip-S", 456)
+	sort.Strings(names)
+	for _, k := range names {
+		r.RequireCounter(k, want[k])
 	}
+	r.Set("floors", want)
 }
